@@ -800,6 +800,19 @@ fn dispatch<C: CI>(op: Op, a: &[&[u8]]) -> R<Vec<Vec<u8>>> {
             let ct = ElGamalCiphertext::<C>::try_from(arg(a, 1)?).map_err(e)?;
             Ok(vec![pt(&dk.decrypt(&ct))])
         }
+        Op::EgVerifyRaw => {
+            // the trait-level verifier with a caller-supplied generator (public API: `BlsElGamal::verify_proof`)
+            let point = |b: &[u8]| -> R<<C as Pairing>::PublicKey> { Ok(PublicKey::<C>::try_from(b).map_err(e)?.0) };
+            let scalar = |b: &[u8]| -> R<_> {
+                if b.len() == 32 && b.iter().all(|x| *x == 0) {
+                    return Ok(SecretKey::<C>::default().0);
+                }
+                Ok(SecretKey::<C>::try_from(b).map_err(e)?.0)
+            };
+            let gen = if arg(a, 1)?.is_empty() { None } else { Some(point(arg(a, 1)?)?) };
+            <C as BlsElGamal>::verify_proof(point(arg(a, 0)?)?, gen, point(arg(a, 2)?)?, point(arg(a, 3)?)?, scalar(arg(a, 4)?)?, scalar(arg(a, 5)?)?, scalar(arg(a, 6)?)?).map_err(e)?;
+            Ok(vec![])
+        }
         Op::MsgGenerator => Ok(vec![pt(&<C as BlsElGamal>::message_generator())]),
         Op::Dsts => Ok(vec![
             <C as BlsSignatureBasic>::DST.to_vec(),
